@@ -30,6 +30,10 @@ def build_sym(it, node, label, shared):
     if isinstance(node, S.Bytes):
         if node.minlen == node.maxlen:
             term = bts.from_cells([ctx.input_byte("%s[%d]" % (label, k)) for k in range(node.minlen)])
+        elif ctx.concrete is not None:
+            n = int(ctx.concrete.get(label + "#len", node.minlen))
+            arr = ctx.concrete.get(label, [])
+            term = bts.from_cells([(int(arr[k]) & 0xFF) if k < len(arr) else 0 for k in range(n)])
         else:
             hi = node.maxlen if node.maxlen is not None else S.A_LEN_HI
             n = ctx.input_int(label + "#len", node.minlen, hi)
@@ -252,6 +256,15 @@ def contract_driver(program, c, findings=()):
             ctx.loop_specs = {}
         label = "ret" if exc is None else "raise " + exc
         ctx.notes.append(label)
+        if ctx.concrete is not None:
+            cap = {"exc": exc, "result": result}
+            if view is not None:
+                try:
+                    cap["view"] = view_pairs(it, it.call_function(view, [vals[order[0]]], {}))
+                except PyRaise as e:
+                    cap["view_error"] = e.type_name
+            ctx.ghost["capture"] = cap
+            return label
         # ---- refinement of a reference function (or of one of several admissible ones)
         if refs_f:
             body_cs = dict(ctx.class_state)
